@@ -507,8 +507,18 @@ pub fn soup_strategy() -> impl Strategy<Value = DirCase> {
     (any::<bool>(), prop::collection::vec(piece, 1..8)).prop_map(|(chained, pieces)| DirCase { chained, slots: pieces.into_iter().flatten().collect() })
 }
 
+/// the same regions through the build with the fixed long-name buffer (featdrv variant B) against the default build
+/// (variant A): identical listings, no crash
+fn fixed_buffer_batch(cases: &[DirCase]) -> Result<Vec<CaseOut>, String> {
+    let hs: Vec<super::c19::FHist> = cases.iter().map(|c| super::c19::FHist { class: 0, kind: 0, ops: vec![super::c19::FOp::RawDir(c.slots.clone())] }).collect();
+    super::c19::eval_batch(&hs)
+}
+
 pub fn replay(v: &serde_json::Value) -> Result<Option<String>, String> {
     let c: DirCase = serde_json::from_value(v["case"].clone()).map_err(|e| format!("bad case: {}", e))?;
+    if v["kind"].as_str() == Some("fixedbuf") {
+        return Ok(fixed_buffer_batch(&[c])?.into_iter().next().and_then(|o| o.violation));
+    }
     let b = make_bases()?;
     Ok(eval(&b, &c).violation)
 }
@@ -518,10 +528,10 @@ fn fail(c: &DirCase, m: String) -> Failure {
 }
 
 pub fn run(tier: Tier, seed: u64) -> i32 {
-    let rule = "directory regions (fixed FAT12 root and a two-cluster chained directory) filled with generated 32-byte slots, cluster fields forced valid: block A = every order/last-flag/checksum pattern of runs of 1..3 long-name slots over 29 interesting order bytes (incl. index 0 with only flag / undefined bits) x follower (short entry, deleted slot, label, end marker, second run, directory); block B = every value of each of the 32 bytes of each slot of a valid two-slot run and of its short entry; block C = random slot soup (valid runs with one damaged byte, 19-21 slot runs of 245..262 units with and without terminator, BMP-only or with surrogate pairs / lone surrogates, garbage long-name slots incl. attr 0x1F/0x2F/0x3F, arbitrary short slots, deleted, labels, end markers); oracle = iteration and every accessor + Debug terminate without panic within a device-call budget, names <= 255 units, and the listing (entries, short names, long names) equals refdec's backwards run parser under at least one reading of the undefined bits; non-trivial = region with a long-name slot whose run is broken; distinct by hash of the region";
+    let rule = "directory regions (fixed FAT12 root and a two-cluster chained directory) filled with generated 32-byte slots, cluster fields forced valid: block A = every order/last-flag/checksum pattern of runs of 1..3 long-name slots over 29 interesting order bytes (incl. index 0 with only flag / undefined bits) x follower (short entry, deleted slot, label, end marker, second run, directory); block B = every value of each of the 32 bytes of each slot of a valid two-slot run and of its short entry; block C = random slot soup (valid runs with one damaged byte, 19-21 slot runs of 245..262 units with and without terminator, BMP-only or with surrogate pairs / lone surrogates, garbage long-name slots incl. attr 0x1F/0x2F/0x3F, arbitrary short slots, deleted, labels, end markers); oracle = iteration and every accessor + Debug terminate without panic within a device-call budget, names <= 255 units, and the listing (entries, short names, long names) equals refdec's backwards run parser under at least one reading of the undefined bits; block D = the order patterns of 1..3 slots and the slot soup through the build with the fixed long-name buffer, listing compared with the default build's (no crash, same entries); non-trivial = region with a long-name slot whose run is broken; distinct by hash of the region";
     let mut rep = Report::new("C17", tier, seed, "exploration", rule);
     rep.assume("undefined bits (attr bits 4-5 of long-name slots, order-byte bits 5 and 7) may be read either way; a run whose order/checksum are valid but whose NUL/0xFFFF layout is malformed may be returned or dropped");
-    rep.assume("this check drives the default (alloc) build; the fixed-buffer build is compared against it in C19's featdrv");
+    rep.assume("blocks A-C drive the default (alloc) build in-process against the independent parser; block D feeds the same families to the fixed-buffer build and the default build through featdrv and compares their listings");
     let b = match make_bases() {
         Ok(b) => b,
         Err(e) => {
@@ -590,6 +600,63 @@ pub fn run(tier: Tier, seed: u64) -> i32 {
     if !rep.failed() {
         let n = tier.pick(500_000u32, 5_000_000u32);
         rep.add(run::run_random("random_slot_soup", seed, n, "dirslots", || run::boxed(soup_strategy()), |c: &DirCase| eval(b, c)));
+    }
+    // block D: the fixed-buffer build (no alloc feature) on the same families, as a differential against the default build
+    if !rep.failed() {
+        let per_slot = ORDERS.len() as u64 * 2;
+        let n1 = per_slot * 12;
+        let n2 = per_slot.pow(2) * 12;
+        let n3 = tier.pick(40_000u64, 600_000u64);
+        let nsoup = tier.pick(30_000u64, 600_000u64);
+        let total = n1 + n2 + n3 + nsoup;
+        let batch = 500u64;
+        let nb = (total + batch - 1) / batch;
+        let d = run::run_indexed("fixed_buffer_build_differential", nb, |bi, blk| {
+            use proptest::strategy::ValueTree;
+            use proptest::test_runner::{Config, RngAlgorithm, TestRng, TestRunner};
+            let mut seed_bytes = [0u8; 32];
+            let mut m = run::Mix::new(seed, 0xC17B + bi);
+            for ch in seed_bytes.chunks_mut(8) {
+                ch.copy_from_slice(&m.next().to_le_bytes());
+            }
+            let mut runner = TestRunner::new_with_rng(Config::default(), TestRng::from_seed(RngAlgorithm::ChaCha, &seed_bytes));
+            let strat = soup_strategy();
+            let mut cases: Vec<DirCase> = Vec::new();
+            for k in bi * batch..((bi + 1) * batch).min(total) {
+                if k < n1 {
+                    cases.push(pattern_case(1, k, false));
+                } else if k < n1 + n2 {
+                    cases.push(pattern_case(2, k - n1, false));
+                } else if k < n1 + n2 + n3 {
+                    let space = per_slot.pow(3) * 12;
+                    cases.push(pattern_case(3, m.next() % space, false));
+                } else if let Ok(t) = strat.new_tree(&mut runner) {
+                    let mut c = t.current();
+                    c.chained = false;
+                    cases.push(c);
+                }
+            }
+            let outs = match fixed_buffer_batch(&cases) {
+                Ok(o) => o,
+                Err(e) => return Some(Failure { message: format!("harness: {}", e), case: serde_json::Value::Null, kind: "abort".into() }),
+            };
+            for (c, out) in cases.iter().zip(outs.iter()) {
+                let mut o = CaseOut::default();
+                o.hash = out.hash;
+                o.nontrivial = c.slots.iter().any(|s| s.len() == 32 && s[11] & 0x0F == 0x0F && s[0] != 0 && s[0] != 0xE5);
+                o.violation = out.violation.clone();
+                blk.record(&o, || serde_json::to_value(c).unwrap());
+                if let Some(mm) = &out.violation {
+                    return Some(Failure { message: format!("root directory region through the fixed-buffer build: {}", mm), case: serde_json::to_value(c).unwrap(), kind: "fixedbuf".into() });
+                }
+            }
+            None
+        });
+        if d.failure.as_ref().map_or(false, |f| f.kind == "abort") {
+            eprintln!("{}", d.failure.as_ref().unwrap().message);
+            return 2;
+        }
+        rep.add(d);
     }
     if !rep.failed() && tier == Tier::Thorough {
         rep.add(run::fuzz_block("dirslots", 8_000_000, seed, 2048));
